@@ -14,10 +14,16 @@ use std::collections::{BTreeMap, BTreeSet};
 use std::sync::{Arc, Mutex};
 use std::time::Instant;
 
+#[global_allocator]
+static ALLOC: mc_core::alloc::VerifAlloc = mc_core::alloc::VerifAlloc;
+
 fn main() {
     mc_core::run::tune_malloc();
     let cli = Cli::parse();
     mc_core::run::install_panic_hook();
+    if std::env::var_os("VERIF_ASAN").is_none() {
+        mc_core::alloc::set_default_poison(0xA5);
+    }
     let rep = Report::new(&cli.check);
     let t0 = Instant::now();
     match cli.check.as_str() {
@@ -355,6 +361,8 @@ fn run(cli: &Cli, rep: &Report) {
             });
             // keep going after failures, but not for ever: every failing schedule leaks its coroutines
             let max_execs = if thorough { 20_000_000 } else { 3_000_000 };
+            let scope_desc = || format!("{}|{}|(schedule unknown: the process aborted)", prop, scn.desc());
+            let _scope = mc_core::run::case_scope(&scope_desc);
             let st = sched::explore(*bound, max_execs, forced, scn.body(), on_end);
             let acc = acc.lock().unwrap();
             for v in viols.lock().unwrap().drain(..) {
